@@ -618,6 +618,10 @@ fn execute_dynamic_per_worker(
     workers: usize,
 ) -> Vec<TickDelta> {
     let next_shard = AtomicUsize::new(0);
+    #[cfg(feature = "echo_verif")]
+    let verif_spawn_ix = AtomicUsize::new(0);
+    #[cfg(feature = "echo_verif")]
+    crate::verif::claim::begin(NUM_SHARDS, workers);
 
     std::thread::scope(|s| {
         let handles: Vec<_> = (0..workers)
@@ -625,11 +629,20 @@ fn execute_dynamic_per_worker(
                 let view_copy = view;
                 let shards = &shards;
                 let next_shard = &next_shard;
+                #[cfg(feature = "echo_verif")]
+                let verif_worker = verif_spawn_ix.fetch_add(1, Ordering::Relaxed);
 
                 s.spawn(move || {
                     let mut delta = TickDelta::new();
                     loop {
                         let shard_id = next_shard.fetch_add(1, Ordering::Relaxed);
+                        #[cfg(feature = "echo_verif")]
+                        let shard_id = crate::verif::claim::scripted_claim(
+                            verif_worker,
+                            shard_id,
+                            NUM_SHARDS,
+                            workers,
+                        );
                         if shard_id >= NUM_SHARDS {
                             break;
                         }
@@ -656,6 +669,10 @@ fn execute_dynamic_per_shard(
     workers: usize,
 ) -> Vec<TickDelta> {
     let next_shard = AtomicUsize::new(0);
+    #[cfg(feature = "echo_verif")]
+    let verif_spawn_ix = AtomicUsize::new(0);
+    #[cfg(feature = "echo_verif")]
+    crate::verif::claim::begin(NUM_SHARDS, workers);
 
     std::thread::scope(|s| {
         let handles: Vec<_> = (0..workers)
@@ -663,11 +680,20 @@ fn execute_dynamic_per_shard(
                 let view_copy = view;
                 let shards = &shards;
                 let next_shard = &next_shard;
+                #[cfg(feature = "echo_verif")]
+                let verif_worker = verif_spawn_ix.fetch_add(1, Ordering::Relaxed);
 
                 s.spawn(move || {
                     let mut deltas: Vec<(usize, TickDelta)> = Vec::new();
                     loop {
                         let shard_id = next_shard.fetch_add(1, Ordering::Relaxed);
+                        #[cfg(feature = "echo_verif")]
+                        let shard_id = crate::verif::claim::scripted_claim(
+                            verif_worker,
+                            shard_id,
+                            NUM_SHARDS,
+                            workers,
+                        );
                         if shard_id >= NUM_SHARDS {
                             break;
                         }
@@ -923,6 +949,10 @@ where
     }
 
     let next_unit = AtomicUsize::new(0);
+    #[cfg(feature = "echo_verif")]
+    let verif_spawn_ix = AtomicUsize::new(0);
+    #[cfg(feature = "echo_verif")]
+    crate::verif::claim::begin(units.len(), workers);
 
     std::thread::scope(|s| {
         let handles: Vec<_> = (0..workers)
@@ -930,6 +960,9 @@ where
                 let units = &units;
                 let next_unit = &next_unit;
                 let resolve_store = &resolve_store;
+                // Runs sequentially on the spawning thread: real spawn index.
+                #[cfg(feature = "echo_verif")]
+                let verif_worker = verif_spawn_ix.fetch_add(1, Ordering::Relaxed);
 
                 s.spawn(move || -> WorkerResult {
                     let mut delta = TickDelta::new();
@@ -937,6 +970,13 @@ where
                     // Work-stealing loop: claim units until none remain
                     loop {
                         let unit_idx = next_unit.fetch_add(1, Ordering::Relaxed);
+                        #[cfg(feature = "echo_verif")]
+                        let unit_idx = crate::verif::claim::scripted_claim(
+                            verif_worker,
+                            unit_idx,
+                            units.len(),
+                            workers,
+                        );
                         if unit_idx >= units.len() {
                             break;
                         }
